@@ -20,6 +20,7 @@ mod lawchk;
 mod exact;
 mod momchk;
 mod entchk;
+mod covchk;
 
 fn main() {
     let args: Vec<String> = std::env::args().collect();
@@ -51,6 +52,7 @@ fn main() {
         "nanview" => nanchk::nanview(&mut cfg, &mut rep),
         "moments" => momchk::moments(&mut cfg, &mut rep),
         "entropy" => entchk::entropy(&mut cfg, &mut rep),
+        "cov" => covchk::cov(&mut cfg, &mut rep),
         _ => {
             eprintln!("unknown enumeration {}", name);
             std::process::exit(4);
